@@ -1374,7 +1374,15 @@ fn stream_parts(thorough: bool, seed: u64, out: &mut dyn Write) {
             3 => writeln!(out, "raw variant {}", hex(&gen_variant(&mut r))).unwrap(),
             _ => {
                 let s = gen_shape(&mut r, i % 20 == 4);
-                let input = render(&mut r, &s.tokens(), (i % 3) as u8);
+                let mut toks = s.tokens();
+                if i % 30 == 5 {
+                    // a well-formed extension of another singleton, before the private-use part (rejected today; if it
+                    // were ever supported, the parts round trip must hold for it as well)
+                    let pos = toks.iter().position(|t| t.len() == 1 && t[0].to_ascii_lowercase() == b'x').unwrap_or(toks.len());
+                    toks.insert(pos, w("foo"));
+                    toks.insert(pos, w(*r.pick(&["a", "b", "z", "0"])));
+                }
+                let input = render(&mut r, &toks, (i % 3) as u8);
                 writeln!(out, "locparts {}", hex(&input)).unwrap();
                 let li: Vec<Vec<u8>> = s.tokens().into_iter().take(1 + r.below(4)).collect();
                 writeln!(out, "liparts {}", hex(&render(&mut r, &li, 2))).unwrap();
